@@ -165,14 +165,20 @@ func dischargeOne(w *World, i int, o *Obligation, opt dischargeOpts) {
 			outputs = append(outputs, fmt.Sprintf("[%s] error", solvers[0].name), trunc(out, 600))
 		} else if err := os.WriteFile(cvcFile, []byte(o.scriptFor(w, isCover, false, true)), 0o644); err == nil {
 			type res struct {
-				idx       int
-				st, out   string
-				secs      float64
+				idx     int
+				st, out string
+				secs    float64
 			}
 			ctx, cancel := context.WithCancel(context.Background())
 			ch := make(chan res, 2)
-			go func() { st, out, secs := runSolverCtx(ctx, solvers[0], file, opt.timeoutS, opt.seed); ch <- res{0, st, out, secs} }()
-			go func() { st, out, secs := runSolverCtx(ctx, solvers[1], cvcFile, opt.timeoutS, opt.seed); ch <- res{1, st, out, secs} }()
+			go func() {
+				st, out, secs := runSolverCtx(ctx, solvers[0], file, opt.timeoutS, opt.seed)
+				ch <- res{0, st, out, secs}
+			}()
+			go func() {
+				st, out, secs := runSolverCtx(ctx, solvers[1], cvcFile, opt.timeoutS, opt.seed)
+				ch <- res{1, st, out, secs}
+			}()
 			for k := 0; k < 2; k++ {
 				r := <-ch
 				if r.st == "cancelled" {
